@@ -80,6 +80,13 @@ tryrun:
 				// avoid getting starved here if
 				// instances of a specific type always
 				// fail.
+				//
+				// Meanwhile, don't let a
+				// lower-priority container of the
+				// same type start ahead of this one
+				// (e.g., if Create succeeds for it
+				// later in this pass).
+				dontstart[it] = true
 				continue
 			}
 
